@@ -193,3 +193,90 @@ Proof.
     eapply reach_closed; eauto using (i_closed g c d0 st I Hc).
     apply (i_present g c d0 st I). now rewrite Hd.
 Qed.
+
+(* ---- removeForeignLayers: the in-place loop is the filter that CopySpec.succ' uses ---- *)
+
+Lemma set_nth_length l k v : length (set_nth l k v) = length l.
+Proof. revert k; induction l as [|x l IH]; intros [|k]; simpl; auto. Qed.
+
+Lemma firstn_set_nth_ge l k v j : j <= k -> firstn j (set_nth l k v) = firstn j l.
+Proof.
+  revert k j; induction l as [|x l IH]; intros [|k] [|j] H; simpl; auto; try lia.
+  f_equal. apply IH. lia.
+Qed.
+
+Lemma skipn_set_nth_lt l k v i : k < i -> skipn i (set_nth l k v) = skipn i l.
+Proof.
+  revert k i; induction l as [|x l IH]; intros [|k] [|i] H; simpl; auto; try lia.
+  apply IH. lia.
+Qed.
+
+Lemma firstn_S_set_nth l j v : j < length l -> firstn (S j) (set_nth l j v) = firstn j l ++ [v].
+Proof.
+  revert j; induction l as [|x l IH]; intros [|j] H; simpl in *; try lia; auto.
+  f_equal. apply IH. lia.
+Qed.
+
+Lemma firstn_S_nth (l : list node) j d : nth_error l j = Some d -> firstn (S j) l = firstn j l ++ [d].
+Proof.
+  revert j; induction l as [|x l IH]; intros [|j] H; simpl in *; try discriminate.
+  - now injection H as ->.
+  - f_equal. now apply IH.
+Qed.
+
+Lemma nth_error_skipn (l : list node) i d : nth_error l i = Some d -> skipn i l = d :: skipn (S i) l.
+Proof.
+  revert i; induction l as [|x l IH]; intros [|i] H; simpl in *; try discriminate.
+  - now injection H as ->.
+  - now apply IH.
+Qed.
+
+Lemma skipn_S_tl (l : list node) i : skipn (S i) l = tl (skipn i l).
+Proof.
+  revert i; induction l as [|x l IH]; intros [|i]; simpl; auto.
+  rewrite <- IH. reflexivity.
+Qed.
+
+Lemma rfl_spec foreign : forall fuel i j arr orig,
+  j <= i -> length arr = length orig -> i + fuel = length orig ->
+  skipn i arr = skipn i orig ->
+  firstn j arr = filter (fun x => negb (foreign x)) (firstn i orig) ->
+  rfl foreign fuel i j arr = filter (fun x => negb (foreign x)) orig.
+Proof.
+  induction fuel as [|f IH]; intros i j arr orig Hji Hlen Hfuel Hskip Hfirst; simpl.
+  - assert (i = length orig) by lia. subst i. now rewrite firstn_all in Hfirst.
+  - destruct (nth_error arr i) as [d|] eqn:Hn.
+    + assert (Ho : nth_error orig i = Some d).
+      { rewrite <- (firstn_skipn i orig), nth_error_app2 by (rewrite firstn_length; lia).
+        rewrite firstn_length, Nat.min_l by lia. rewrite Nat.sub_diag, <- Hskip.
+        rewrite (nth_error_skipn arr i d Hn). reflexivity. }
+      assert (Hs' : forall a, length a = length orig -> skipn i a = skipn i orig ->
+                     skipn (S i) a = skipn (S i) orig).
+      { intros a _ Ha. now rewrite !skipn_S_tl, Ha. }
+      assert (Hf' : filter (fun x => negb (foreign x)) (firstn (S i) orig) =
+                    filter (fun x => negb (foreign x)) (firstn i orig) ++ (if foreign d then [] else [d])).
+      { rewrite (firstn_S_nth orig i d Ho), filter_app. simpl. destruct (foreign d); reflexivity. }
+      destruct (foreign d) eqn:Fd.
+      * apply IH; try lia; auto.
+        rewrite Hf', app_nil_r. exact Hfirst.
+      * destruct (Nat.eqb i j) eqn:Eij.
+        -- apply Nat.eqb_eq in Eij. subst j.
+           apply IH; try lia; auto.
+           rewrite Hf', (firstn_S_nth arr i d Hn), Hfirst. reflexivity.
+        -- apply Nat.eqb_neq in Eij. assert (j < i) by lia.
+           apply IH; try lia.
+           ++ now rewrite set_nth_length.
+           ++ rewrite skipn_set_nth_lt by lia. apply Hs'; auto.
+           ++ rewrite Hf', firstn_S_set_nth by lia. now rewrite Hfirst.
+    + apply nth_error_None in Hn. lia.
+Qed.
+
+Lemma remove_foreign_inplace_is_filter foreign descs :
+  remove_foreign_inplace foreign descs = filter (fun x => negb (foreign x)) descs.
+Proof.
+  unfold remove_foreign_inplace. apply rfl_spec; simpl; auto.
+Qed.
+
+Lemma succ'_is_remove_foreign g n :
+  succ' g n = remove_foreign_inplace (g_foreign g) (g_succ g n).
+Proof. now rewrite remove_foreign_inplace_is_filter. Qed.
